@@ -80,6 +80,8 @@ impl<T: AtomicInt> ConcurrentUnionFind<T> {
                 let mut l = Self::find_impl(buf, l);
                 let mut r = Self::find_impl(buf, r);
                 while l != r {
+                    #[cfg(feature = "verif-hooks")]
+                    egglog_concurrency::verif::yield_point(egglog_concurrency::verif::site::UF_FIND);
                     let next = buf[T::as_usize(l)].load();
                     if next == l {
                         return false;
@@ -120,6 +122,8 @@ impl<T: AtomicInt> ConcurrentUnionFind<T> {
                         // work for rebuilding.
                         let parent = cmp::min(l, r);
                         let child = cmp::max(l, r);
+                        #[cfg(feature = "verif-hooks")]
+                        egglog_concurrency::verif::yield_point(egglog_concurrency::verif::site::UF_MERGE);
                         match buf[T::as_usize(child)].cas(child, parent) {
                             Ok(_) => return (parent, child),
                             Err(_) => continue,
@@ -143,6 +147,8 @@ impl<T: AtomicInt> ConcurrentUnionFind<T> {
         let mut next = load!(cur);
         let mut grand = load!(next);
         while next != grand {
+            #[cfg(feature = "verif-hooks")]
+            egglog_concurrency::verif::yield_point(egglog_concurrency::verif::site::UF_FIND);
             let _ = buf[T::as_usize(cur)].cas(next, grand);
             // This is what the paper calls "two-try" splitting.
             // next = load!(cur);
@@ -150,6 +156,8 @@ impl<T: AtomicInt> ConcurrentUnionFind<T> {
             // let _ = buf[T::as_usize(cur)].cas(next, grand);
             cur = next;
             next = load!(cur);
+            #[cfg(feature = "verif-hooks")]
+            egglog_concurrency::verif::yield_point(egglog_concurrency::verif::site::UF_FIND);
             grand = load!(next);
         }
         next
